@@ -135,6 +135,13 @@ func runIter(seg segment.Segment, field, term string, hits sx.V, r iterRun, ru *
 	if ru != nil {
 		ru.pl, ru.it = pl, it
 	}
+	// the list is not changed by making an iterator from it: Count again, and a second iterator
+	if pl.Count() != uint64(len(live)) {
+		return sx.V{}, false, fmt.Sprintf("Count() = %d after an iterator was made from the list, want %d (as before)", pl.Count(), len(live))
+	}
+	if p2, err := pl.Iterator(false, false, false, nil).Next(); err != nil || (p2 == nil) != (len(live) == 0) || (p2 != nil && p2.Number() != live[0]) {
+		return sx.V{}, false, fmt.Sprintf("a second iterator made from the same list starts with %v (err %v), the non-excluded hits are %v", p2, err, live)
+	}
 	if oi, ok := it.(segment.OptimizablePostingsIterator); ok {
 		d1, is1 := oi.DocNum1Hit()
 		abm := oi.ActualBitmap()
